@@ -95,13 +95,34 @@ def muduo_lib(flavour="dbg", with_pb=False):
         return lib, extra_inc
 
 
-def harness(name, flavour="dbg", with_pb=False, extra_srcs=(), libs=""):
-    """build harness/<name>.cc against the freshly built library; returns the binary path"""
+def harness(name, flavour="dbg", with_pb=False, extra_srcs=(), libs="", extra_protos=(), cxxflags=""):
+    """build harness/<name>.cc against the freshly built library; returns the binary path.
+    `extra_protos`: .proto files under harness/ compiled with protoc (C++ output in
+    .build/harness-<flavour>/gen-<name>, added to the sources and the include path);
+    `cxxflags`: extra compiler flags for this driver only."""
     lib, extra_inc = muduo_lib(flavour, with_pb)
     out = os.path.join(BUILD, "harness-" + flavour)
     os.makedirs(out, exist_ok=True)
     exe = os.path.join(out, name)
     srcs = [os.path.join(HARNESS, name + ".cc")] + [os.path.join(HARNESS, s) for s in extra_srcs]
+    if extra_protos:
+        pgen = os.path.join(out, "gen-" + name)
+        os.makedirs(pgen, exist_ok=True)
+        with flock("harness-%s-%s" % (flavour, name)):
+            for proto in extra_protos:
+                src = os.path.join(HARNESS, proto)
+                stamp = os.path.join(pgen, proto.replace("/", "_") + ".stamp")
+                want = open(src).read()
+                if not os.path.exists(stamp) or open(stamp).read() != want:
+                    rc, o, e = sh(["protoc", "--cpp_out=" + pgen, "-I" + HARNESS, src])
+                    if rc != 0:
+                        raise BuildError("protoc " + proto, o + e)
+                    with open(stamp, "w") as f:
+                        f.write(want)
+                srcs.append(os.path.join(pgen, proto.replace(".proto", ".pb.cc")))
+        extra_inc += " -I" + pgen
+    if cxxflags:
+        extra_inc += " " + cxxflags
     with flock("harness-%s-%s" % (flavour, name)):
         deps = " ".join(srcs + glob.glob(os.path.join(HARNESS, "*.h")) + glob.glob(os.path.join(HARNESS, "sched/*.h")) + [lib])
         mk = "%s: %s\n\t@%s %s %s -I%s -I%s%s %s %s %s -lz -lrt -o $@\n" % (
